@@ -208,6 +208,10 @@ PROP_TEXTS = [
     "caf\u00e9 \u65e5\u672c",
     "tab\tinside",
     "line1\nline2",
+    # line boundaries for str.splitlines() but not for a text file: LS, NEL, PS
+    "Team\u2028room = 4",
+    "next\u0085line",
+    "para\u2029graph: x",
     "back\\slash",
     "x" * 80,
 ]
